@@ -27,7 +27,7 @@ def monitor(state, op, o):
 
 def run(c):
     quick = c.tier == "quick"
-    n_hist, n_ops = (72, 120) if quick else (600, 300)
+    n_hist, n_ops = (84, 120) if quick else (700, 300)
     rc, out = vlib.sh([sys.executable, os.path.join(vlib.ROOT, "gen", "keymaps.py"), vlib.REPO,
                        os.path.join(vlib.LEAN, "RimeModel", "Gen", "Keymaps.lean")])
     gen_ok = rc == 0
